@@ -3,7 +3,7 @@
 CHECK = {
     "harnesses": [
         # weights inside the executable: tuner 23 : tune 1
-        {"exe": "c13_tuning", "flavour": "plain", "cases": (400000, 16000000), "procs": (8, 14), "subs": ["tuner", "tune"]},
+        {"exe": "c13_tuning", "flavour": "plain", "cases": (400000, 8000000), "procs": (8, 14), "subs": ["tuner", "tune"]},
     ],
     "min_nontrivial": (50000, 1000000),
     "timeout": (900, 7200),
